@@ -143,3 +143,17 @@ LEVEL_TEXT.update({
     'C12': 'Theorems for all strings (induction with one character of look-ahead) about models whose tables are regenerated from the source; tied to the real functions exhaustively over a class alphabet and on random Unicode strings; the wire composition is proved where it holds and refuted with a witness where it does not.',
 })
 for k in ['C10','C12']: NOT_APPLICABLE.pop(k, None)
+
+PROPS.update({
+    'C18': dict(gens=['vehicle', 'track', 'consts', 'packets', 'builder'], coq_targets=['Props/C18.vo'], coqchk_modules=['Props.C18'], group='wire', harness='c18', axioms_allowed=[],
+        proved=['for ALL setter sequences (induction over the call list): every ISI field is the last value set or its documented default; UDP port only for UDP and 0 without a local address; every flag bit is decided by the last call touching it; a flag setter changes exactly its bit; mode / protocol = last set or default',
+                'the ten flag setters regenerated from builder.rs each own one distinct bit = the IsiFlags constant of the same name; isi() has the pinned source shape; version = VERSION',
+                'the ISI as a model packet: in the wire domain its frame in the configured mode decodes back to exactly that ISI and is one well-formed frame (C01/C03 instantiated)'],
+        modelled=['Builder is hand-modelled as a record with one function per setter (Builder/Builder.v), tied by correspondence on every short call sequence and random long ones; flag setters, IsiFlags constants, defaults and DEFAULT_INAME are REGENERATED from the source',
+                  'connect_blocking / connect_async are exercised for real against loopback TCP / UDP peers (not modelled): the peer must receive exactly the ISI frame and nothing else; the relay arms need a network peer and are not exercised'],
+        assumptions=['socket setup (bind/connect/timeouts) is the OS\'s; isi() totality is checked under catch_unwind on every explored configuration']),
+})
+LEVEL_TEXT.update({
+    'C18': 'Theorems over all builder call sequences (induction over the op list, generic last-set-or-default lemma) about a model whose flag setters and defaults are regenerated from the source, composed with the C01/C03 frame theorems for the handshake frame; tied to the real Builder exhaustively over short call sequences and to the real connect functions over loopback sockets.',
+})
+NOT_APPLICABLE.pop('C18', None)
